@@ -466,6 +466,52 @@ def check_instance_state(ctx):
     ctx.need(bad == {'bad'}, f'self-test of the instance-state rule failed ({sorted(bad)})')
 
 
+PRINTERISH = {'to_tree', 'to_string', 'get_string', '__repr__', '__str__', '__eq__', '__ne__', 'render', 'to_value'}
+PROCESS_SOURCES = {'random.random', 'random.randint', 'random.choice', 'random.shuffle', 'uuid.uuid4', 'uuid.uuid1', 'os.getpid', 'time.time', 'time.time_ns',
+                   'time.monotonic', 'datetime.now', 'datetime.datetime.now', 'dt.datetime.now', 'datetime.utcnow', 'datetime.datetime.utcnow', 'date.today',
+                   'datetime.date.today', 'dt.date.today', 'os.urandom', 'secrets.token_hex', 'threading.get_ident', 'threading.current_thread'}
+
+
+def process_dependent_calls(tree, file):
+    """calls whose value differs from process to process (or from object to object) and that can reach a result: builtin hash() outside __hash__ (salted for text
+    by PYTHONHASHSEED), id() inside printers / comparison methods and anywhere in the renderer, clocks / random / pid -> [(function name, call, why)]"""
+    out = []
+    for fn in [n for n in ast.walk(tree) if isinstance(n, ast.FunctionDef)]:
+        for n in walk_no_nested(fn):
+            if not isinstance(n, ast.Call):
+                continue
+            d = dotted(n.func) or ''
+            if d == 'hash' and fn.name != '__hash__':
+                out.append((fn, n, 'the builtin hash() of text is salted per process (PYTHONHASHSEED)'))
+            elif d == 'id' and n.args and (fn.name in PRINTERISH or '/render/' in file):
+                out.append((fn, n, 'id() is the address of the object: it differs between a tree and its copy and from run to run'))
+            elif d in PROCESS_SOURCES:
+                out.append((fn, n, f'{d}() differs from call to call'))
+    return out
+
+
+def check_process_dependent(ctx):
+    """Trees, plans, rendered text and messages are functions of the input: no value that depends on the process (hash seed, addresses, clock, random) may be
+    computed where it can reach them."""
+    n = 0
+    for f in ctx.src.py_files('mindsdb_sql'):
+        tree = ctx.src.tree(f)
+        n += 1
+        for fn, call, why in process_dependent_calls(tree, f):
+            ctx.ob('C20.process-independent', f'{f.split("/")[-1]}:{fn.name}:{norm(call)[:40]}', False,
+                   f'{fn.name} computes `{norm(call)[:60]}`: {why} - the same input then gives a different tree / plan / text in another process or for an equal object',
+                   file=f, line=call.lineno, witness='PYTHONHASHSEED=0 vs PYTHONHASHSEED=1')
+    ctx.setcount('process_dependence_files', n)
+    ctx.ob('C20.process-independent', 'all', True, '')
+    demo = ast.parse('class N:\n    def __repr__(self):\n        return f"<{id(self):#x}>"\n    def __hash__(self):\n        return hash((1, 2))\n'
+                     'def label(s):\n    return "%08x" % (hash(s) & 0xffffffff)\n')
+    for x in ast.walk(demo):
+        for c in ast.iter_child_nodes(x):
+            c._parent = x
+    got = sorted(fn.name for fn, _, _ in process_dependent_calls(demo, 'mindsdb_sql/x.py'))
+    ctx.need(got == ['__repr__', 'label'], f'self-test of the process-independence rule failed ({got})')
+
+
 def check_caller_objects(ctx):
     nfn = 0
     for f in ctx.src.py_files('mindsdb_sql/planner'):
@@ -868,6 +914,8 @@ def run(ctx):
     check_hash_order(ctx)
     check_library_state(ctx)
     check_instance_state(ctx)
+    check_process_dependent(ctx)
+    ctx.floor('process_dependence_files', 60)
     ctx.floor('renderer_methods', 20)
     ctx.floor('library_roots', 1)
     ctx.floor('functions_scanned', 450)
